@@ -79,6 +79,9 @@ StoreMem(mem, ty, b, o, v) ==       \* returns [ok, m, why]
   ELSE IF v.t = "p" /\ n # 8 THEN [ok |-> FALSE, m |-> mem, why |-> "narrow store of a pointer"]
   ELSE IF v.t = "op" THEN (IF b = GlobBlk /\ n = 8 THEN [ok |-> TRUE, why |-> "", m |-> [mem EXCEPT ![b].cells = OpaqueCells]]
                            ELSE [ok |-> FALSE, m |-> mem, why |-> "opaque register contents stored to memory"])
+  ELSE IF v.t = "l" /\ n = 8        \* a label address kept in memory or in a global variable (a return address for jret)
+       THEN [ok |-> TRUE, why |-> "",
+             m |-> [mem EXCEPT ![b].cells = [j \in 1..mem[b].sz |-> IF j > o /\ j <= o + 8 THEN [k |-> "l", i |-> j - o, f |-> v.f, l |-> v.l] ELSE @[j]]]]
   ELSE IF v.t \in {"l", "fn", "ld", "ra", "sm"} THEN [ok |-> FALSE, m |-> mem, why |-> "label, function or variable address stored to memory"]
   ELSE LET new == IF IsFpTy(ty) THEN [i \in 1..n |-> FpC(ty, i, v.x)]
                   ELSE IF v.t = "p" THEN [i \in 1..n |-> [k |-> "p", i |-> i, b |-> v.b, o |-> v.o]]
@@ -446,6 +449,27 @@ Step ==
                                 ELSE Append(mem, [sz |-> bn, live |-> TRUE,      \* exactly the parameter's size is the callee's
                                                   cells |-> SubSeq(mem[args[bv].b].cells, args[bv].o + 1, args[bv].o + bn)])
                       /\ UNCHANGED <<log, status, why, result>>
+       \* jcall / jret: a call without a return address; the callee (no arguments, no results) leaves by `jret a` where a is the
+       \* address of a label of the function that executed the jcall (it got there through memory or a global variable)
+       [] op = "jcall" ->
+            LET cf == IF I.callee.k = "reg" THEN RegVal(R, I.callee.r).f ELSE I.callee.f
+                g == prog.funcs[cf] IN
+            IF I.callee.k = "reg" /\ RegVal(R, I.callee.r).t # "fn" THEN GoUndef("jcall through something that is not a function address")
+            ELSE IF Len(g.params) # 0 \/ Len(g.res) # 0 THEN GoUndef("jcall of a function with arguments or results")
+            ELSE IF Len(frames) >= 12 THEN GoUndef("call depth bound")
+            ELSE /\ frames' = Append(SetTop([Top EXCEPT !.ovf = NoOvf]),
+                                     [f |-> cf, id |-> steps + 1, va |-> <<>>, pc |-> 1, regs |-> [r \in 1..Len(g.regty) |-> UndefV],
+                                      base |-> Len(mem), ovf |-> NoOvf, jc |-> TRUE])
+                 /\ UNCHANGED <<mem, log, status, why, result>>
+       [] op = "jret" ->
+            LET a == Eval(R, mem, I.s[1])
+                mem2 == [b \in 1..Len(mem) |-> IF b > Top.base THEN [mem[b] EXCEPT !.live = FALSE, !.cells = <<>>] ELSE mem[b]] IN
+            IF IsBad(a) THEN GoUndef(a.why)
+            ELSE IF "jc" \notin DOMAIN Top \/ Len(frames) < 2 THEN GoUndef("jret in a function that was not entered by jcall")
+            ELSE IF a.t # "l" \/ a.f # frames[Len(frames) - 1].f THEN GoUndef("jret to something that is not a label of the function that did the jcall")
+            ELSE /\ frames' = [SubSeq(frames, 1, Len(frames) - 1) EXCEPT ![Len(frames) - 1] = [frames[Len(frames) - 1] EXCEPT !.pc = a.l]]
+                 /\ mem' = mem2
+                 /\ UNCHANGED <<log, status, why, result>>
        [] op = "ret" ->
             LET vals == [i \in 1..Len(I.s) |-> Eval(R, mem, I.s[i])]
                 badv == {i \in 1..Len(vals) : IsBad(vals[i])}
@@ -453,7 +477,8 @@ Step ==
                 outv == [i \in 1..Len(vals) |-> Narrow(rts[i], vals[i])]
                 \* allocas of the returning frame die
                 mem2 == [b \in 1..Len(mem) |-> IF b > Top.base THEN [mem[b] EXCEPT !.live = FALSE, !.cells = <<>>] ELSE mem[b]] IN
-            IF badv # {} THEN GoUndef(vals[CHOOSE i \in badv : TRUE].why)
+            IF "jc" \in DOMAIN Top THEN GoUndef("ret in a function entered by jcall")
+            ELSE IF badv # {} THEN GoUndef(vals[CHOOSE i \in badv : TRUE].why)
             ELSE IF Len(frames) = 1
             THEN /\ status' = "done" /\ result' = outv /\ mem' = mem2
                  /\ UNCHANGED <<frames, log, why>>
